@@ -51,6 +51,6 @@ TECHNIQUE = "z3 regular-language lemmas over the live patterns in live dispatch 
 ENGINE = "RX+CH"
 EXPLANATION = ("SPEC_lyric = BL* D ' = E \"lyric ' ANY '\"' BL*, SPEC_section likewise, SPEC_text = quote-free text not starting with 'lyric ' / "
                "'section '. Queries: inclusion in own kind, exclusion from earlier kinds, capture lemmas, 'lyric'/'section' without blank are text.")
-BOUNDS = "all strings (alphabet U+0000-U+2FFFF); <=3 token lines in the integrated harness"
+BOUNDS = "all strings (alphabet U+0000-U+2FFFF); <=3 token lines in the integrated harness; dispatcher runs of <=8/12 lines symbolic and 5..4097 lines native; a 130 000-character file"
 OUTSIDE = "texts containing a newline character (lines cannot contain one)"
 ASSUMPTIONS = [S1, S3, S4, S6]
